@@ -215,6 +215,14 @@ def check_pair(c, x, y, x2, encf, op, behave, probes):
                 except enc.Unencodable:
                     pass
                 break
+    # equality does not depend on whether an object has been used: after x has been applied to the probes,
+    # every comparison gives what it gave before
+    for d in probes:
+        behave(x, d)
+    after = (eq_obs(x, y), eq_obs(y, x), eq_obs(x, x), eq_obs(x, x2))
+    if after != (exy, eyx, exx, exx2):
+        c.fail("equality_after_use", f"after x was used, (x==y, y==x, x==x, x==copy) went from {(exy, eyx, exx, exx2)} to {after}")
+        c.py += "\n# then use x on a document (filter / get_data / test) and compare again"
 
 
 def make_path_case(g, parts, docs):
@@ -302,6 +310,18 @@ def make_rule_case(g, rr, docs):
     sx, sy = Schema([bx[1]]), Schema([by[1]])
     if eq_obs(sx, sy) != eq_obs(bx[1], by[1]):
         c.fail("schema_eq", "single-rule schemas compare differently from their rules")
+    # a schema that has validated documents still equals a separately built copy of the same definition
+    sx2 = Schema([bx2[1]])
+    before = (eq_obs(sx, sx2), eq_obs(sx2, sx), eq_obs(sx, sx), eq_obs(sx, sy))
+    for d in docs:
+        enc.outcome(lambda: sx.validate(d))
+    after = (eq_obs(sx, sx2), eq_obs(sx2, sx), eq_obs(sx, sx), eq_obs(sx, sy))
+    if before[0] != ["ok", True]:
+        c.fail("rebuilt_copy", f"separately built single-rule schemas compare {before[0]}")
+    if after != before:
+        c.fail("equality_after_use", f"after Schema([x]).validate(doc), (s==copy, copy==s, s==s, s==Schema([y])) went from {before} to {after}")
+        c.py = rc.PY_HEAD + (f"s = Schema([{rc.rule_py(rr)}])\ns2 = Schema([{rc.rule_py(rr)}])\nprint(s == s2)\n"
+                             f"s.validate({docs[0]!r})\nprint(s == s2, s2 == s, s == s)")
     c.features.add(("rule", what))
     return c
 
